@@ -21,8 +21,8 @@ def check(ctx):
 
 def s1_ownership(ctx):
     M = ctx.M
-    for attr, owner, floor in (('buy_quantity', 'Position', 2), ('sell_quantity', 'Position', 2), ('current_price', 'Position', 2),
-                               ('positions', 'PositionHandler', 3)):
+    for attr, owner, floor in (('buy_quantity', 'Position', 1), ('sell_quantity', 'Position', 1), ('current_price', 'Position', 1),
+                               ('positions', 'PositionHandler', 1)):
         ws = writers_of_attr(M, attr)
         ctx.floor('C02.S1', 'writers of %s.%s' % (owner, attr), len(ws), floor)
         for w in ws:
